@@ -169,8 +169,9 @@ Definition dump_event_meta (rest : list byte) (inf : info) : res (list Z * nat *
          Ok (s_tempo ++ dec tempo, inf)
        else if meta_type =? 88 then
          do nn <- byte_at rest 3; do dd <- byte_at rest 4;
-         if dd >=? 31 then Panic 23 (* 2i32.pow(dd) overflows *)
-         else Ok (s_timesig ++ dec nn ++ [47] ++ dec (2 ^ dd), mkInfo nn (2 ^ dd) (i_eot inf))
+         (* 2usize.saturating_pow(dd): any exponent byte *)
+         let deno := if dd >=? 64 then 2 ^ 64 - 1 else 2 ^ dd in
+         Ok (s_timesig ++ dec nn ++ [47] ++ dec deno, mkInfo nn deno (i_eot inf))
        else
          do txt <- read_str (skipn 3 rest) meta_len;
          Ok (meta_name meta_type meta_len ++ [123] ++ txt ++ [125; 59], inf));
@@ -260,9 +261,10 @@ Fixpoint track_loop (fuel : nat) (timebase : Z) (inf : info) (pos end_pos time :
         else
           let bb := beat_base timebase (i_deno inf) in
           if bb =? 0 then Panic 26 (* time % 0 *)
-          else if i_frac inf =? 0 then Panic 27 (* base % 0 *)
           else
-            let '(mes, beat, tick) := position bb (i_frac inf) time1 in
+            (* a numerator byte of 0 counts as 1 *)
+            let frac := if i_frac inf =? 0 then 1 else i_frac inf in
+            let '(mes, beat, tick) := position bb frac time1 in
             do d <- dump_event rest1 inf;
             let '(desc, k, inf1) := d in
             do more <- track_loop f timebase inf1 (pos1 + Z.of_nat k) end_pos time1 (skipn k rest1);
